@@ -463,6 +463,32 @@ pub fn soak(seed: u64, threads: usize, ops: usize) -> Vec<String> {
     if len != 0 {
         out.push(format!("C18 soak: all handles dropped but the intern table has {len} entries"));
     }
+    // many distinct contents alive at once (the table grows through several capacities): each is interned once, and
+    // interning the same bytes again while its handle is alive returns the SAME buffer
+    {
+        let n = 6000usize;
+        let bytes = |i: usize| format!("live-{seed}-{i}").into_bytes();
+        let held: Vec<SharedString> = (0..n).map(|i| SharedString::new(bytes(i))).collect();
+        let l = hook::table_len();
+        if l != n {
+            out.push(format!("C18 soak: {n} distinct contents are alive (one handle each) and the intern table has {l} entries"));
+        }
+        let mut split = 0usize;
+        for (i, h) in held.iter().enumerate() {
+            let again = SharedString::new(bytes(i));
+            if again.data().as_ptr() != h.data().as_ptr() {
+                split += 1;
+            }
+        }
+        if split > 0 {
+            out.push(format!("C18 soak: with {n} distinct contents alive, interning {split} of them again returned a second buffer (deduplication lost)"));
+        }
+        drop(held);
+        let l = hook::table_len();
+        if l != 0 {
+            out.push(format!("C18 soak: after {n} distinct contents were all dropped the intern table still has {l} entries"));
+        }
+    }
     // racing last releases: two threads drop the last two handles of one buffer at the same moment
     // (the window inside Arc's reference count, below the yield hook's granularity); afterwards the
     // table must be empty again
